@@ -137,7 +137,7 @@ CLAIMS["C15"] = {
             "whole OPT record emit to octets that decode to the same value from any encoder state. Unbounded. Tie: D RR / E RR "
             "cases (TTL octets 4x256 complete, cookie/padding lengths 0..64, ECS grid, option sequences, length deltas) compared "
             "with the model and judged in both directions by the reference decoder.",
-    "note": "The ECS octet count on output (known finding KF2) belongs to C17. " + NOTE_COMMON,
+    "note": "The ECS octet count on output (repaired by a627009; residual class KF2) belongs to C17. " + NOTE_COMMON,
     "technique": "Coq proof (bit-level arithmetic on the TTL word, exact value domains, encode/decode round trip) + two-sided reference-decoder oracle",
     "ref": "DESIGN.md section 7 C15",
 }
@@ -168,19 +168,21 @@ CLAIMS["C18"] = {
 }
 
 CLAIMS["C17"] = {
-    "text": "Eighteen Coq theorems (Props/C17.v). Input side: rr_address accepts exactly 0..size address octets and zero-fills; an "
+    "text": "Coq theorems of Props/C17.v. Input side: rr_address accepts exactly 0..size address octets and zero-fills; an "
             "APL item / ECS body is accepted iff family is 1/2, octet count <= size and no bit beyond the prefix is set after "
             "zero-fill (bit-level prefix_ok of C12), with family, prefix, negation (bit 7 of the AFDLENGTH octet, 7-bit length) "
             "and address returned unchanged; the exact error for each rejected class; plus the property's grid as theorems by "
             "complete evaluation inside Coq (IPv4: 256 prefixes x 6 octet counts x 67 address patterns x both negation flags; "
-            "IPv6: 256 x 18 x 259). Output side: the encoder emits EXACTLY min(p/8+1, size) address octets (p = prefix for APL, "
-            "max(source,scope) for ECS), preserves family/prefix/negation, and what it emits decodes to the same item; this count "
-            "is proved to differ from RFC 7871 (ceil(source/8)) and RFC 3123 (no trailing zero octets) with witnesses and "
-            "characterised exactly - known findings KF2 and KF3. Tie: the grid through D RR / E RR cases, two-sided reference "
-            "decoder verdicts, emitted count compared with the RFC count and attributed to KF2/KF3 only when it equals the "
-            "characterised count.",
-    "note": "The output clause of C17 is violated by the pinned tree (KF2, KF3, not repaired: ECS and APL share one helper and ECS needs a decision for scope > source). " + NOTE_COMMON,
-    "technique": "Coq proof (value-domain iff, exact emitted-count characterisation, refutation witnesses, finite grid by vm_compute) + two-sided reference-decoder oracle with known-finding classes",
+            "IPv6: 256 x 18 x 259). Output side (after the repair a627009): the writer emits the address up to its last non-zero "
+            "octet but at least the minimum length; for EVERY valid APL item the emitted count is the RFC 3123 count (no trailing "
+            "zero octet); for every valid ECS value without a non-zero address octet beyond ceil(source/8) -- in particular "
+            "whenever scope <= source -- it is exactly ceil(source/8) (RFC 7871); family, prefixes and negation are preserved and "
+            "what is emitted decodes to the same item for every valid value. The remaining class (a non-zero octet beyond "
+            "ceil(source/8), needs scope > source) is written in full and exceeds the RFC count: refutation witness, known finding "
+            "KF2 (narrowed). Tie: the grid through D RR / E RR cases, two-sided reference decoder verdicts, emitted count compared "
+            "with the RFC count and attributed to KF2 only inside that class.",
+    "note": "The ECS/APL octet counts were a genuine defect of the pinned tree (repaired: fix commit a627009); what remains open is the narrow ECS class above (KF2). " + NOTE_COMMON,
+    "technique": "Coq proof (value-domain iff, exact emitted-count theorems = RFC counts outside a characterised class, refutation witness inside it, finite grid by vm_compute) + two-sided reference-decoder oracle with a known-finding class",
     "ref": "DESIGN.md section 7 C17",
 }
 
